@@ -25,7 +25,10 @@ class C01(LedgerCheck):
     rule = ("seeded histories as for C03 (same generator, weights shifted to transfers / locks / withdrawals / fee changes), amounts in "
             "{0,1,small,bal-1,bal,bal+1 via exact mints,2^64,2^127,u128::MAX}, every allowed and non-allowed fee asset incl. the ibc/<hash> "
             "form, fee schedules up to u128::MAX (the saturation edge F9 is driven explicitly in ~10% of the cases), outgoing ICS-20 "
-            "withdrawals of source / voucher / ibc-hash denominations; after every transaction and every block the monitor sums all "
+            "withdrawals of source / voucher / ibc-hash denominations; fee-asset scenarios in ~20% of the blocks (the allowed-fee-asset set "
+            "changes between fee payments of one block: removal after payment, payment after removal, addition then payment, re-addition; "
+            "in begin/exec/end blocks and through finalize_block), so that the routing of the block fees is checked for assets whose "
+            "allowed status changed during the block; after every transaction and every block the monitor sums all "
             "balances + escrow + block fees per asset over the dump. non-trivial = >= 3 transactions took effect and >= 1 failed; "
             "distinct = distinct script text")
     assumptions = LedgerCheck.assumptions + [
